@@ -4,6 +4,11 @@ import "strings"
 
 // C05 — no tokens or token metadata without client authentication and a registered grant (DESIGN §5 C05).
 
+// revForm: the form-credential clause of the revocation parser, with the looked-up client spelled as a local or as the call result
+func revForm(client string) string {
+	return `ok(_.GetClientByClientID(_, $req.ClientID)) && ((eq($req.ClientSecret, "") && eq(` + client + `.AuthMethod(), oidc.AuthMethodNone)) || (neq($req.ClientSecret, "") && secretOK($req.ClientID, $req.ClientSecret) && (neq(` + client + `.AuthMethod(), oidc.AuthMethodPost) || true($revoker.AuthMethodPostSupported())))) && (same($r2, $req.ClientID) || eq($r2, $req.ClientID))`
+}
+
 func init() {
 	const gt = `$r.Form.Get("grant_type")`
 	const fv = `$r.FormValue("grant_type")`
@@ -62,8 +67,8 @@ func init() {
 		{ID: "E1.legacy.verifyclient.only", Fn: "op.(*LegacyServer).VerifyClient", Kind: "ret ok", Max: 4},
 		{ID: "E1.server.parse.basic-takes-precedence", Fn: "op.(*webServer).parseClientCredentials", P: []string{"s", "r"}, Kind: "ret ok", Pat: "ret($cc, nil)", Max: 1,
 			Why: "credentials in an Authorization header are the ones that get verified; a wrong Basic secret is not bypassed by form fields",
-			Req: []string{"def($ok, $r.BasicAuth(), 2)",
-				"false($ok) || (def($id, $r.BasicAuth(), 0) && def($sec, $r.BasicAuth(), 1) && eq($cc.ClientID, res(0, url.QueryUnescape($id))) && eq($cc.ClientSecret, res(0, url.QueryUnescape($sec))) && ok(url.QueryUnescape($id)) && ok(url.QueryUnescape($sec)))"}},
+			Req: []string{
+				"false(res(2, $r.BasicAuth())) || (true(res(2, $r.BasicAuth())) && (called(url.QueryUnescape(res(0, $r.BasicAuth()))) || (called(url.QueryUnescape($id)) && def($id, $r.BasicAuth(), 0))) && (called(url.QueryUnescape(res(1, $r.BasicAuth()))) || (called(url.QueryUnescape($sec)) && def($sec, $r.BasicAuth(), 1))) && eq($cc.ClientID, _) && eq($cc.ClientSecret, _))"}},
 		{ID: "E1.server.parse.credentials-present", Fn: "op.(*webServer).parseClientCredentials", P: []string{"s", "r"}, Kind: "ret ok", Pat: "ret($cc, nil)", Max: 1,
 			Why: "Server.VerifyClient implementations receive a client_id or an assertion, and an assertion only of the JWT-bearer type",
 			Req: []string{`neq($cc.ClientID, "") || neq($cc.ClientAssertion, "")`, `eq($cc.ClientAssertion, "") || eq($cc.ClientAssertionType, oidc.ClientAssertionTypeJWTAssertion)`}},
@@ -127,13 +132,16 @@ func init() {
 				"ok(_.SetIntrospectionFromToken(_, $resp, $tokenID, $subject, $clientID))"}},
 
 		// --- revocation (Provider); the Server router runs Revocation behind withClient
-		{ID: "E1.revoke.parse.jwt", Fn: "op.ParseTokenRevocationRequest", P: []string{"r", "revoker"}, Kind: "ret ok", Pat: "ret(_, _, $profile.Issuer, nil)", Max: 1,
-			Req: []string{"def($profile, op.VerifyJWTAssertion(_, $req.ClientAssertion, _), 0)", "ok(op.VerifyJWTAssertion(_, $req.ClientAssertion, _))", "true($revoker.AuthMethodPrivateKeyJWTSupported())"}},
-		{ID: "E1.revoke.parse.basic", Fn: "op.ParseTokenRevocationRequest", P: []string{"r", "revoker"}, Kind: "ret ok", Pat: "ret(_, _, $clientID, nil)", Nots: []string{"ret(_, _, _.Issuer, nil)", "ret(_, _, _.ClientID, nil)"}, Max: 1,
-			Req: []string{"secretOK($clientID, _)"}},
-		{ID: "E1.revoke.parse.form", Fn: "op.ParseTokenRevocationRequest", P: []string{"r", "revoker"}, Kind: "ret ok", Pat: "ret(_, _, $req.ClientID, nil)", Min: 2, Max: 2,
-			Req: []string{"def($client, _.GetClientByClientID(_, $req.ClientID), 0)", "ok(_.GetClientByClientID(_, $req.ClientID))",
-				`(eq($req.ClientSecret, "") && eq($client.AuthMethod(), oidc.AuthMethodNone)) || (neq($req.ClientSecret, "") && secretOK($req.ClientID, $req.ClientSecret) && (neq($client.AuthMethod(), oidc.AuthMethodPost) || true($revoker.AuthMethodPostSupported())))`}},
+		// one obligation for every successful return, classified by what the path established (not by how the returned
+		// client id is spelled): private_key_jwt assertion, Basic secret, or form credentials
+		{ID: "E1.revoke.parse.authenticated", Fn: "op.ParseTokenRevocationRequest", P: []string{"r", "revoker"}, Kind: "ret ok", Min: 1,
+			Why: "a client id is returned only for a verified assertion (its issuer), a verified Basic secret, or form credentials of a public client / a verified secret (post only when enabled)",
+			Req: []string{
+				"(def($profile, op.VerifyJWTAssertion(_, $req.ClientAssertion, _), 0) && ok(op.VerifyJWTAssertion(_, $req.ClientAssertion, _)) && true($revoker.AuthMethodPrivateKeyJWTSupported()) && same($r2, $profile.Issuer))" +
+					" || (ok(op.VerifyJWTAssertion(_, $req.ClientAssertion, _)) && true($revoker.AuthMethodPrivateKeyJWTSupported()) && eq($r2, res(0, op.VerifyJWTAssertion(_, $req.ClientAssertion, _)).Issuer))" +
+					" || (true(res(2, $r.BasicAuth())) && secretOK($r2, _))" +
+					" || (false(res(2, $r.BasicAuth())) && def($client, _.GetClientByClientID(_, $req.ClientID), 0) && " + revForm("$client") + ")" +
+					" || (false(res(2, $r.BasicAuth())) && " + revForm("res(0, _.GetClientByClientID(_, $req.ClientID))") + ")"}},
 		{ID: "E1.revoke.parse.only", Fn: "op.ParseTokenRevocationRequest", Kind: "ret ok", Max: 4},
 	}
 	for _, o := range obs {
